@@ -352,7 +352,11 @@ func (a *List) M__iadd__(other Object) (Object, error) {
 }
 
 func (l *List) M__mul__(other Object) (Object, error) {
-	if b, ok := convertToInt(other); ok {
+	b, ok, err := repeatCount(other)
+	if err != nil {
+		return nil, err
+	}
+	if ok {
 		m := len(l.Items)
 		n, err := repeatLength(m, b)
 		if err != nil {
